@@ -21,7 +21,7 @@ import ast
 from dataclasses import dataclass, field
 
 from .core import AnalysisError
-from .srcmodel import Module, Source, dotted, norm
+from .srcmodel import Module, Source, dotted, norm, walk_no_nested
 
 
 class Unsupported(AnalysisError):
@@ -153,6 +153,16 @@ class ASet:
 @dataclass(eq=False)
 class ADict:
     items: dict
+
+
+@dataclass(frozen=True)
+class RePattern:
+    """A compiled regular expression whose pattern text is known."""
+    pattern: str
+
+
+class ACounter(ADict):
+    """collections.Counter / defaultdict(int): a missing key reads as 0."""
 
 
 @dataclass(eq=False)
@@ -374,10 +384,40 @@ class Interp:
         for nme in params:
             if nme not in local:
                 raise Unsupported(f"{qual}: missing argument {nme}")
+        is_gen = any(isinstance(x, (ast.Yield, ast.YieldFrom)) for x in walk_no_nested(fn))
+        if is_gen:
+            # a generator function: run eagerly and hand back the sequence of yielded values (the order of the values is
+            # the order a consumer sees; side effects of the body happen before the first value is consumed)
+            local["__yields__"] = []
+            self.assumptions.append(f"generator {qual} evaluated eagerly")
+            try:
+                self.exec_block(fn.body, env)
+            except ReturnSig:
+                pass
+            return AList(list(local["__yields__"]), "list")
         try:
             self.exec_block(fn.body, env)
         except ReturnSig as r:
             return r.value
+        return None
+
+    def ev_Yield(self, n, env):
+        e = env
+        while e is not None and "__yields__" not in e.local:
+            e = e.outer
+        if e is None:
+            raise Unsupported(f"yield outside a generator function at {env.mod.site(n)}")
+        e.local["__yields__"].append(self.eval(n.value, env) if n.value is not None else None)
+        return None
+
+    def ev_YieldFrom(self, n, env):
+        e = env
+        while e is not None and "__yields__" not in e.local:
+            e = e.outer
+        if e is None:
+            raise Unsupported(f"yield from outside a generator function at {env.mod.site(n)}")
+        for x in self.iterate(self.eval(n.value, env), env.mod.site(n)):
+            e.local["__yields__"].append(x.value if isinstance(x, _Tagged) else x)
         return None
 
     # -- statements --------------------------------------------------------
@@ -812,6 +852,11 @@ class Interp:
         if isinstance(o, Obj):
             if attr in o.attrs:
                 return o.attrs[attr]
+            if o.cls.kind == "model" and attr in ("copy", "dict"):
+                try:
+                    return self.class_attr(o.cls, attr, o, site)
+                except Unsupported:
+                    return BoundMethod(o, attr)      # pydantic BaseModel.copy / .dict
             return self.class_attr(o.cls, attr, o, site)
         if isinstance(o, ClassVal):
             if o.kind == "enum":
@@ -831,7 +876,12 @@ class Interp:
                 return Tmpl.lit(o.member)
             if attr == "value":
                 return self.enum_value(o, site)
-        if isinstance(o, (Tmpl, AList, ASet, ADict, Sym, StrBuf)):
+            # a property or method the enum class defines
+            for m_ in self.src.modules.values():
+                c_ = m_.classes().get(o.cls)
+                if c_ is not None and self.class_val(m_, c_).kind == "enum":
+                    return self.class_attr(self.class_val(m_, c_), attr, o, site)
+        if isinstance(o, (Tmpl, AList, ASet, ADict, Sym, StrBuf, RePattern)):
             return BoundMethod(o, attr)
         if isinstance(o, ExtVal):
             if o.module == "math" and not o.attr and attr in ("inf", "nan", "pi", "e", "tau"):
@@ -967,6 +1017,8 @@ class Interp:
             kk = self.dict_key(o, k, site)
             if kk in o.items:
                 return o.items[kk]
+            if isinstance(o, ACounter):
+                return 0
             raise RaiseSig("KeyError", site)
         if isinstance(o, PVal) and isinstance(k, int):
             return o.values[k]
@@ -1222,6 +1274,10 @@ class Interp:
                 return s.name == t.text()
             if s.kind in ("int", "float"):
                 return False
+            if s.kind == "rawtoken" and t.is_literal() and TOKEN_LANGUAGE["fn"] is not None:
+                # the text of a token is a word of its rule's pattern: a literal outside that language is never equal to it
+                if TOKEN_LANGUAGE["fn"](s.src, t.text()) is False:
+                    return False
             return self.choose(f"equal({s.src}, literal) at {site}")
         if isinstance(a, AList) and isinstance(b, AList):
             return len(a.items) == len(b.items) and a.pytype == b.pytype and all(
@@ -1280,6 +1336,30 @@ class Interp:
                 return needle in text
         if isinstance(container, Sym) and container.kind in ("rawtoken", "str"):
             return self.choose(f"{_describe(x)} in {container.src} at {site}")
+        if isinstance(container, Tmpl) and isinstance(x, Tmpl) and x.is_literal():
+            # substring test on text that embeds rendered values: decided by the literal pieces when they contain the
+            # needle; otherwise it depends on the content of the values (forked)
+            needle = x.text()
+            if needle == "":
+                return True
+            if any(isinstance(p_, str) and needle in p_ for p_ in container.parts):
+                return True
+            open_holes = []
+            for p_ in container.parts:
+                if isinstance(p_, str):
+                    continue
+                k_ = p_.sym.kind
+                if k_ == "ident":
+                    if needle in p_.sym.name:
+                        return True
+                elif k_ in ("int", "float"):
+                    if all(ch in "0123456789.-+einfa" for ch in needle):
+                        open_holes.append(p_)
+                else:
+                    open_holes.append(p_)
+            if not open_holes:
+                return False
+            return self.choose(f"{needle!r} in rendered {open_holes[0].sym.src} at {site}")
         raise Unsupported(f"membership in {type(container).__name__} at {site}")
 
     def truthy(self, v, what=""):
@@ -1322,6 +1402,8 @@ class Interp:
             return Tmpl.lit(k)
         if isinstance(k, tuple) and k and k[0] == "sym":
             return _SYMS.get(k[1], k)
+        if isinstance(k, tuple) and k and k[0] == "tmpl":
+            return _TMPLS.get(k, k)
         return k
 
     def iterate(self, v, site):
@@ -1332,6 +1414,8 @@ class Interp:
             return [_Tagged(x, site) for x in v.items] if len(v.items) > 1 else list(v.items)
         if isinstance(v, ADict):
             return [self._unkey(k) for k in v.items]
+        if isinstance(v, Tmpl) and v.is_literal():
+            return [Tmpl.lit(ch) for ch in v.text()]
         if isinstance(v, _MapIter):
             return v.items
         if isinstance(v, ClassVal) and v.kind == "enum":
@@ -1434,7 +1518,28 @@ class Interp:
         if cv.kind == "model":
             return self.model_construct(cv, args, kwargs, site)
         if cv.kind == "enum":
-            raise Unsupported(f"enum call {cv.name}(...) at {site}")
+            # Enum(value): the member with that value, ValueError if there is none
+            if len(args) != 1 or kwargs:
+                raise Unsupported(f"enum call {cv.name}(...) at {site}")
+            v = args[0]
+            if isinstance(v, EnumVal) and v.cls == cv.name:
+                return v
+            undecided = None
+            for name_, _val, _m in self.enum_members(cv.name, site):
+                mv = self.enum_value(EnumVal(cv.name, name_), site)
+                if isinstance(v, Sym) and v.kind in ("rawtoken", "str") and isinstance(mv, Tmpl):
+                    if v.kind == "rawtoken" and TOKEN_LANGUAGE["fn"] is not None and TOKEN_LANGUAGE["fn"](v.src, mv.text()) is False:
+                        continue
+                    undecided = undecided or name_
+                    if self.choose(f"{v.src} == {mv.text()!r} (enum lookup by value) at {site}"):
+                        return EnumVal(cv.name, name_)
+                    continue
+                try:
+                    if self.equal(v, mv, site):
+                        return EnumVal(cv.name, name_)
+                except Unsupported:
+                    pass
+            raise RaiseSig("ValueError", site, f"{_describe(v)} is not a valid {cv.name}")
         o = Obj(cv, {})
         try:
             init = self.class_attr(cv, "__init__", o, site)
@@ -1683,6 +1788,23 @@ class Interp:
 
     # builtins --------------------------------------------------------------
     def builtin(self, name, args, kwargs, site):
+        if name == "dict.fromkeys" and args:
+            d = ADict({})
+            for k in self.iterate(args[0], site):
+                k = k.value if isinstance(k, _Tagged) else k
+                kk = self.dict_key(d, k, site)
+                if kk not in d.items:
+                    d.items[kk] = args[1] if len(args) > 1 else None
+            return d
+        if name == "filter" and len(args) == 2:
+            f, it = args
+            out = []
+            for x in self.iterate(it, site):
+                x = x.value if isinstance(x, _Tagged) else x
+                keep = self.truthy(x, site) if f is None else self.truthy(self.apply(f, [x], {}, site), site)
+                if keep:
+                    out.append(x)
+            return AList(out, "list")
         if "." in name and args:          # unbound method of a builtin type: str.lower(x) == x.lower()
             return self.method(args[0], name.split(".", 1)[1], args[1:], kwargs, site)
         if name == "str":
@@ -1725,10 +1847,15 @@ class Interp:
                     return (0, k.name)
                 if isinstance(k, Tmpl) and k.is_literal():
                     return (0, k.text())
-                if isinstance(k, Tmpl) and all(isinstance(p_, Hole) and p_.sym.kind == "ident" for p_ in k.parts) and len(k.parts) == 1:
-                    return (0, k.parts[0].sym.name)
+                if isinstance(k, Tmpl) and all(isinstance(p_, str) or (p_.sym.kind == "ident" and p_.render == "str") for p_ in k.parts):
+                    # text assembled from literal pieces and identifier names: its value is known
+                    return (0, "".join(p_ if isinstance(p_, str) else p_.sym.name for p_ in k.parts))
                 if isinstance(k, int) and not isinstance(k, bool):
                     return (1, k)
+                if isinstance(k, AList):
+                    sub = [concrete(x) for x in k.items]
+                    if all(x is not None for x in sub):
+                        return (2, tuple(sub))
                 return None
             keys = [concrete(k) for k in kvals]
             rev = bool(kwargs.get("reverse"))
@@ -1820,11 +1947,11 @@ class Interp:
                 return Sym(name, v.src, neg=v.neg, coerced=v.coerced + ((v.kind, name, f"{name}() call", site),), uid=v.uid)
             if _isnum(v):
                 return int(v) if name == "int" else float(v)
-            if name == "float" and isinstance(v, Tmpl) and v.is_literal():
+            if isinstance(v, Tmpl) and v.is_literal():
                 try:
-                    return float(v.text())
+                    return float(v.text()) if name == "float" else int(v.text())
                 except ValueError:
-                    pass
+                    raise RaiseSig("ValueError", site, f"{name}({v.text()!r})")
             raise Unsupported(f"{name}() of {v!r} at {site}")
         if name == "print":
             return None
@@ -1848,6 +1975,48 @@ class Interp:
 
     def method(self, recv, name, args, kwargs, site):
         args = [x.value if isinstance(x, _Tagged) else x for x in args]
+        if isinstance(recv, RePattern):
+            import re as _re
+
+            def conc(v):
+                if isinstance(v, Tmpl) and v.is_literal():
+                    return v.text()
+                if isinstance(v, Sym) and v.kind == "ident":
+                    return v.name
+                if isinstance(v, Tmpl) and all(isinstance(p_, str) or (p_.sym.kind == "ident" and p_.render == "str") for p_ in v.parts):
+                    return "".join(p_ if isinstance(p_, str) else p_.sym.name for p_ in v.parts)
+                return None
+            subj = conc(args[-1]) if args else None
+            if subj is not None and not kwargs:
+                rx_ = _re.compile(recv.pattern)
+                if name == "split" and len(args) == 1:
+                    return AList([Tmpl.lit(x) if x is not None else None for x in rx_.split(subj)], "list")
+                if name == "findall" and len(args) == 1:
+                    r_ = rx_.findall(subj)
+                    if all(isinstance(x, str) for x in r_):
+                        return AList([Tmpl.lit(x) for x in r_], "list")
+                if name in ("match", "fullmatch", "search") and len(args) == 1:
+                    return ExtVal("re", "Match()") if getattr(rx_, name)(subj) else None
+                if name == "sub" and len(args) == 2 and conc(args[0]) is not None:
+                    return Tmpl.lit(rx_.sub(conc(args[0]), subj))
+            if name in ("match", "fullmatch", "search") and args and isinstance(args[-1], (Sym, Tmpl)):
+                return ExtVal("re", "Match()") if self.choose(f"{name}() of {recv.pattern!r} on {_describe(args[-1])} at {site}") else None
+            raise Unsupported(f"re.Pattern.{name} on a value that is not known text at {site}")
+        if isinstance(recv, Obj) and recv.cls.kind == "model":
+            if name == "copy":
+                # pydantic v1 BaseModel.copy(update=...): a shallow copy with the given fields replaced, not re-validated
+                o2 = Obj(recv.cls, dict(recv.attrs))
+                upd = kwargs.get("update")
+                if isinstance(upd, ADict):
+                    for k, v in upd.items.items():
+                        o2.attrs[str(k)] = v
+                elif upd is not None:
+                    raise Unsupported(f"model.copy(update=<{type(upd).__name__}>) at {site}")
+                if any(k not in ("update", "deep") for k in kwargs):
+                    raise Unsupported(f"model.copy({sorted(kwargs)}) at {site}")
+                return o2
+            if name == "dict" and not args and not kwargs:
+                return ADict(dict(recv.attrs))
         if isinstance(recv, StrBuf):
             if name == "write":
                 v = args[0]
@@ -1943,6 +2112,26 @@ class Interp:
                 if isinstance(edge, str) and len(edge) >= len(t_):
                     return edge.startswith(t_) if name == "startswith" else edge.endswith(t_)
                 return self.choose(f"{name}({t_!r}) on generated text at {site}")
+            if name == "replace" and len(args) >= 2 and isinstance(args[0], Tmpl) and args[0].is_literal() and args[0].text() \
+                    and isinstance(args[1], (Tmpl, Sym)) and not (recv.is_literal() and isinstance(args[1], Tmpl) and args[1].is_literal()):
+                # replacement in text that embeds rendered values (or by such text): exact in the literal pieces; a value
+                # whose rendering may contain the needle is marked - what lands in the text is then no longer that value
+                needle = args[0].text()
+                new = args[1] if isinstance(args[1], Tmpl) else self.render(args[1], "str", site)
+                out = Tmpl()
+                for p_ in recv.parts:
+                    if isinstance(p_, str):
+                        pieces = p_.split(needle)
+                        for i_, piece in enumerate(pieces):
+                            if i_:
+                                out = out + new
+                            out = out + Tmpl.lit(piece)
+                        continue
+                    k_ = p_.sym.kind
+                    may = (k_ in ("str", "rawtoken")) or (k_ == "ident" and needle in p_.sym.name) or \
+                        (k_ in ("int", "float") and all(ch in "0123456789.-+einfa" for ch in needle))
+                    out = out + Tmpl((Hole(p_.sym, p_.render + f"|replace({needle})", site) if may else p_,))
+                return Tmpl(out.parts, recv.nondet + (new.nondet if isinstance(new, Tmpl) else ()))
             if recv.is_literal():
                 s = recv.text()
                 if name in ("strip", "lstrip", "rstrip", "lower", "upper", "title") and all(
@@ -1956,6 +2145,16 @@ class Interp:
                     return Tmpl.lit(s.replace(*[a.text() for a in args]))
                 if name == "encode":
                     return recv
+                if name in ("isdigit", "isdecimal", "isnumeric", "isalpha", "isalnum", "isidentifier", "islower", "isupper", "isspace",
+                            "isascii") and not args:
+                    return getattr(s, name)()
+                if name in ("casefold", "capitalize", "swapcase") and not args:
+                    return Tmpl.lit(getattr(s, name)())
+                if name in ("count", "find", "rfind", "index") and all(isinstance(a, Tmpl) and a.is_literal() for a in args) and args:
+                    try:
+                        return getattr(s, name)(*[a.text() for a in args])
+                    except ValueError:
+                        raise RaiseSig("ValueError", site)
             raise Unsupported(f"str.{name} on a non-literal string at {site}")
         if isinstance(recv, ASet):
             if name == "add":
@@ -2038,6 +2237,32 @@ class Interp:
                 return AList([self._unkey(k) for k in recv.items])
             if name == "values":
                 return AList(list(recv.items.values()))
+            if name == "update":
+                for src_ in list(args):
+                    if isinstance(src_, ADict):
+                        for k, v in src_.items.items():
+                            recv.items[self.dict_key(recv, self._unkey(k), site)] = v
+                    else:
+                        for pair in self.iterate(src_, site):
+                            k, v = self.iterate(pair, site)
+                            recv.items[self.dict_key(recv, k, site)] = v
+                for k, v in kwargs.items():
+                    recv.items[k] = v
+                return None
+            if name == "copy":
+                d = type(recv)(dict(recv.items))
+                return d
+            if name == "pop":
+                k = self.dict_key(recv, args[0], site)
+                if k in recv.items:
+                    return recv.items.pop(k)
+                if len(args) > 1:
+                    return args[1]
+                raise RaiseSig("KeyError", site, f"pop({args[0]!r})")
+            if name == "__contains__":
+                return self.dict_key(recv, args[0], site) in recv.items
+            if name == "most_common" and isinstance(recv, ACounter):
+                raise Unsupported(f"Counter.most_common at {site}")
             raise Unsupported(f"dict.{name} at {site}")
         if isinstance(recv, Sym):
             if recv.kind == "ident" and name in ("lower", "upper", "casefold") and not args:
@@ -2068,6 +2293,18 @@ class Interp:
             return None            # emitting a log record / warning does not affect the compiled text
         if q in ("typing.cast",) and len(args) == 2:
             return args[1]
+        if q in ("collections.Counter", "Counter"):
+            c = ACounter({})
+            if args:
+                for x in self.iterate(args[0], site):
+                    x = x.value if isinstance(x, _Tagged) else x
+                    kk = self.dict_key(c, x, site)
+                    c.items[kk] = c.items.get(kk, 0) + 1
+            return c
+        if q in ("collections.OrderedDict", "OrderedDict") and not args:
+            return ADict({})
+        if q in ("collections.defaultdict", "defaultdict") and len(args) == 1 and isinstance(args[0], Builtin) and args[0].name == "int":
+            return ACounter({})
         if q in ("math.isinf", "math.isfinite", "math.isnan") and len(args) == 1:
             import math as _math
             v = args[0]
@@ -2085,7 +2322,15 @@ class Interp:
             import re as _re
             return Tmpl.lit(_re.escape(args[0].text()))
         if q == "re.compile":
+            if args and isinstance(args[0], Tmpl) and args[0].is_literal() and len(args) == 1 and not kwargs:
+                return RePattern(args[0].text())
             return ExtVal("re", "Pattern()")
+        if q in ("re.split", "re.sub", "re.findall", "re.match", "re.fullmatch", "re.search") and args and isinstance(args[0], Tmpl) \
+                and args[0].is_literal() and not kwargs:
+            try:
+                return self.method(RePattern(args[0].text()), q.split(".")[1], args[1:], {}, site)
+            except Unsupported:
+                pass
         if q in ("re.Pattern().match", "re.Pattern().fullmatch", "re.Pattern().search", "re.match", "re.fullmatch", "re.search"):
             subj = args[-1] if args else None
             if isinstance(subj, (Sym, Tmpl)):
@@ -2196,6 +2441,16 @@ class Interp:
                 if how == "str":
                     return out
                 return Tmpl.lit(f"{v.cls.name}(") + out + Tmpl.lit(")")
+            for dunder in (("__str__", "__repr__") if how == "str" else ("__repr__",)):
+                try:
+                    f = self.class_attr(v.cls, dunder, v, site)
+                except Unsupported:
+                    continue
+                r = self.call(f, [], {}, site) if isinstance(f, FuncVal) else None
+                if isinstance(r, Tmpl):
+                    return r
+                if isinstance(r, Sym):
+                    return self.render(r, "str", site)
             raise Unsupported(f"str() of a {v.cls.name} instance at {site}")
         if isinstance(v, ClassVal):
             return Tmpl.lit(f"<class '{v.name}'>")
@@ -2266,6 +2521,8 @@ def _isnum(v):
 
 
 _SYMS: dict = {}
+TOKEN_LANGUAGE = {"fn": None}     # installed by the pipeline: (token type, text) -> may the token's text be `text`?
+_TMPLS: dict = {}
 
 
 class IdentKey(str):
@@ -2276,7 +2533,13 @@ class IdentKey(str):
 
 def _key(k):
     if isinstance(k, Tmpl):
-        return k.text()
+        if k.is_literal():
+            return k.text()
+        # text with rendered opaque values in it: equal when built from the same values in the same way (two
+        # different literals are treated as different texts)
+        kk = ("tmpl", tuple(p_ if isinstance(p_, str) else ("hole", p_.sym.uid, p_.sym.name, p_.render) for p_ in k.parts))
+        _TMPLS[kk] = k
+        return kk
     if isinstance(k, Sym):
         if k.kind == "ident":
             ik = IdentKey(k.name)
